@@ -9,6 +9,7 @@ import json
 import logging
 import os
 import shutil
+import stat
 from copy import deepcopy
 from threading import RLock
 from types import MappingProxyType
@@ -793,9 +794,15 @@ class Job:
                 if fn in (self.FN_STATE_POINT, self.FN_DOCUMENT):
                     continue
                 path = os.path.join(self.path, fn)
-                if os.path.isfile(path):
+                # Unlike os.path.isfile/isdir, do not mistake an entry that
+                # cannot be examined (e.g. EIO, EACCES) for one to be skipped.
+                try:
+                    mode = os.stat(path).st_mode
+                except FileNotFoundError:
+                    continue
+                if stat.S_ISREG(mode):
                     os.remove(path)
-                elif os.path.isdir(path):
+                elif stat.S_ISDIR(mode):
                     shutil.rmtree(path)
             self.document.clear()
         except OSError as error:
